@@ -85,6 +85,16 @@ def cases(rng, tier):
             for t in "01":
                 yield "pk_addr %s %s %s p2pkh" % (hx(sc), c, t), "pk-p2pkh"
         yield "pk_addr %s 1 0 p2wpkh" % hx(sec_u(x, y)), "pk-p2wpkh"
+        # the same key handed over in every encoding PublicKey.parse accepts (compressed, uncompressed, python-ecdsa's
+        # raw x||y, hybrid 06/07): the addresses depend on the point, not on the bytes it was parsed from
+        xb, yb = x.to_bytes(32, "big"), y.to_bytes(32, "big")
+        forms = [sc, sec_u(x, y), xb + yb, bytes([6 + (y & 1)]) + xb + yb]
+        f = forms[rng.randrange(4)] if tier == "quick" and k > 3 else None
+        for form in ([f] if f is not None else forms):
+            for c in "01":
+                yield "pk_addr %s %s %s p2pkh" % (hx(form), c, rng.choice("01")), "pk-key-encoding-form"
+            yield "pk_addr %s 1 0 p2wpkh" % hx(form), "pk-key-encoding-form"
+            yield "sec_parse " + hx(form), "pk-key-encoding-form"
         # several requests on ONE PublicKey object, in varying order (compressed before uncompressed and back)
         reqs = [rng.choice(["1:0:p2pkh", "0:0:p2pkh", "1:1:p2pkh", "0:1:p2pkh", "1:0:p2wpkh", "1:1:p2wpkh",
                             "1:0:h160", "0:0:h160"]) for _ in range(rng.randint(2, 6))]
